@@ -27,7 +27,7 @@ NEED = ["mode_ldaps", "mode_starttls", "result_ok", "result_err", "result_pendin
 
 CF = {"mode": "starttls", "verify": True, "connector": "custom", "timeout": "none", "via": "dial", "host": "name", "store": "system"}
 SC = {"resp": "success", "rc": 0, "inj": "with", "hs": "trusted"}
-GOOD = [{"e": "accept"}, {"e": "clear", "k": "starttls"}, {"e": "hello"}, {"e": "result", "r": "ok", "late": False},
+GOOD = [{"e": "accept"}, {"e": "clear", "k": "starttls"}, {"e": "hello"}, {"e": "result", "r": "ok", "late": False, "held": 0},
         {"e": "bindseen", "ch": "tls"}, {"e": "bindresult", "rc": 49}]
 
 
@@ -44,9 +44,9 @@ def selftests(chk):
     L.selftest_fixed(chk, "default-connector-accepts-private-ca", rec(dict(CF, connector="default"), SC, GOOD))
     L.selftest_fixed(chk, "established-without-handshake", rec(CF, SC, GOOD[:2] + GOOD[3:]))
     L.selftest_fixed(chk, "pending-after-close", rec(CF, dict(SC, resp="close", inj="none"),
-                                                     GOOD[:2] + [{"e": "result", "r": "pending", "late": False}]))
+                                                     GOOD[:2] + [{"e": "result", "r": "pending", "late": False, "held": -1}]))
     L.selftest_fixed(chk, "late-despite-timeout", rec(dict(CF, timeout="short"), dict(SC, resp="stall", inj="none"),
-                                                      GOOD[:2] + [{"e": "result", "r": "err", "late": True}]))
+                                                      GOOD[:2] + [{"e": "result", "r": "err", "late": True, "held": -1}]))
 
 
 def run(tier):
@@ -109,7 +109,10 @@ def run(tier):
         if os.path.exists(x):
             os.remove(x)
     selftests(chk)
+    L.selftest_fixed(chk, "exchange-id-still-held-when-established",
+                     {"kind": "script", "cfg": CF, "script": SC, "ev": GOOD[:3] + [dict(GOOD[3], held=1)] + GOOD[4:]})
     L.split_infra(chk)
+    L.disown(chk, "c13:", "C13")
     chk.rule.append("fault enumeration: every (configuration, adversary script) of MCSetupEst - StartTLS response in {success, refusal "
                     "with a non-zero code incl. referral(10)/saslBindInProgress(14), a complete non-LDAP element, close after reading the request, close at once, reply under "
                     "another message ID, silence}, cleartext BindResponse(success) injected {before, in the same write as, after} the "
